@@ -106,8 +106,10 @@ type Sched struct {
 
 	Truncated  bool
 	Deadlocked bool
-	fail       *Violation
-	draining   bool
+	// NoDeadlockFail: the property's own oracle reports lock deadlocks (with a better message)
+	NoDeadlockFail bool
+	fail           *Violation
+	draining       bool
 
 	// OnQuiescent is called after every step (everything parked or blocked).
 	OnQuiescent func()
@@ -720,6 +722,18 @@ func (s *Sched) Run() {
 	synctest.Wait()
 	s.drainSig()
 	s.loop()
+	if s.fail == nil && s.Deadlocked && !s.NoDeadlockFail {
+		// virtual hours passed with tasks waiting for a lock and nothing else able to run: a lock cycle or a
+		// goroutine waiting for a lock it holds itself. No property of a call that never returns can hold.
+		site, who := "", ""
+		for _, t := range s.tasks {
+			if t.parked() && t.kind == kLockWait {
+				site, who = t.site, t.Name
+				break
+			}
+		}
+		s.Fail("lock-deadlock", site, "task %q waits forever for the lock at %s: nothing else can run and %s of virtual time passed (self-deadlock or lock cycle)", who, site, s.IdleLimit)
+	}
 	if s.fail == nil && s.OnEnd != nil {
 		s.OnEnd()
 	}
